@@ -20,7 +20,10 @@ def tasks_for(pid, tier, seed):
     for name, c in sorted(reg.items()):
         if pid not in c.props or not c.verify:
             continue
-        for inst in c.instances():
+        insts = c.instances()
+        if tier == 'quick' and hasattr(c, 'quick_instances'):
+            insts = c.quick_instances()         # the thorough tier verifies every instance
+        for inst in insts:
             out.append(('vt.e1.registry', 'run_contract', {'backend': 'E1', 'pid': pid, 'contract': name, 'inst': inst}))
     return out
 
